@@ -277,9 +277,11 @@ func c14Derive(v *c14Val, t string) []*c14Val {
 		a0, _ := c14Assoc(v, t, tv)
 		a1, _ := c14Assoc(v, "k", tv)
 		d, _ := c14Dissoc(v, "k")
-		c4, _ := c14Assoc(v, c14Collide[3], tv)
+		// one new hash-colliding key only: two of them derived from the same map
+		// would already disturb each other under a collision-node sharing bug,
+		// before the judged statement runs
 		c6, _ := c14Assoc(v, c14Collide[5], tv)
-		return []*c14Val{a0, a1, d, c4, c6}
+		return []*c14Val{a0, a1, d, c6}
 	}
 	return nil
 }
@@ -329,8 +331,7 @@ func c14DeriveCode(x string, v *c14Val, t string) string {
 		return "conj " + x + " " + t + "; assoc " + x + " 0 " + t + "; assoc " + x + " -1 " + t +
 			"; put " + x + "[1..] " + x + "[..-1]; conj " + x + "[..-1] " + t + "\n"
 	case 'm':
-		return "assoc " + x + " " + t + " " + t + "; assoc " + x + " k " + t + "; dissoc " + x + " k; assoc " + x + " " + c14Collide[3] + " " + t +
-			"; assoc " + x + " " + c14Collide[5] + " " + t + "\n"
+		return "assoc " + x + " " + t + " " + t + "; assoc " + x + " k " + t + "; dissoc " + x + " k; assoc " + x + " " + c14Collide[5] + " " + t + "\n"
 	}
 	return ""
 }
